@@ -20,6 +20,8 @@ CRATES = {
     # name: (package, features)
     'stun_rs': ('stun-rs', 'ice turn discovery mobility'),
     'stun_agent': ('stun-agent', ''),
+    # stun-rs as stun-agent sees it (default features): the 16-variant StunAttribute enum and its generated dispatch
+    'stun_rs_default': ('stun-rs', ''),
 }
 
 
